@@ -655,7 +655,11 @@ fn name_sel() -> impl Strategy<Value = NameSel> {
         12 => (any::<u16>(), 0u8..24).prop_map(|(h, s)| NameSel::Valid(h, s)),
         2 => (any::<u16>(), 0u8..24, any::<u16>(), 0u8..5, any::<u8>()).prop_map(|(h, s, p, k, c)| NameSel::Edited(h, s, p, k, c)),
         1 => "\\PC{0,40}".prop_map(NameSel::Raw),
-        2 => (0u8..38, prop::collection::vec(prop_oneof![6 => 0u8..5, 1 => any::<u8>(), 1 => Just(255u8)], 0..14), 0u8..24, "[ -~]{0,70}").prop_map(|(p, m, s, n)| NameSel::Hand(p, m, s, n)),
+        2 => (0u8..38, prop::collection::vec(prop_oneof![6 => 0u8..5, 1 => any::<u8>(), 1 => Just(255u8)], 1..4), prop::collection::vec(any::<u8>(), 0..24), 0u8..24, "[ -~]{0,70}").prop_map(|(p, palette, picks, s, n)| {
+            // modifier lists drawn from a small palette, so that the same modifier repeats often
+            let m: Vec<u8> = picks.iter().map(|k| palette[*k as usize % palette.len()]).collect();
+            NameSel::Hand(p, m, s, n)
+        }),
         1 => "Noise_[NXKI1]{1,4}(psk[0-9]{1,3}|fallback|hfs|\\+){0,3}_(25519|448|P256)_(ChaChaPoly|AESGCM|XChaChaPoly)_(SHA256|SHA512|BLAKE2s|BLAKE2b)".prop_map(NameSel::Raw),
     ]
 }
@@ -798,8 +802,9 @@ pub fn decode(data: &[u8]) -> Script {
         1 | 2 => NameSel::Edited(b.u16(), b.u8() % 24, b.u16(), b.u8() % 5, b.u8()),
         3 => {
             let p = b.u8() % 38;
-            let k = b.u8() as usize % 14;
-            let mods: Vec<u8> = (0..k).map(|_| { let v = b.u8(); if v < 200 { v % 5 } else { v } }).collect();
+            let k = b.u8() as usize % 24;
+            let pal: Vec<u8> = (0..1 + b.u8() % 3).map(|_| { let v = b.u8(); if v < 200 { v % 5 } else { v } }).collect();
+            let mods: Vec<u8> = (0..k).map(|_| pal[b.u8() as usize % pal.len()]).collect();
             let suite = b.u8() % 24;
             let n = b.u8() as usize % 48;
             let raw: Vec<u8> = (0..n).map(|_| 0x20 + b.u8() % 0x5f).collect();
